@@ -22,7 +22,7 @@ pub fn gen_expr(
     match &ast.node {
         Node::AnonFun { args, body } => {
             let anon_env = constrain_args(args, &env.is_def_mode(true), ctx, constr)?;
-            generate(body, &anon_env, ctx, constr)?;
+            generate(body, &anon_env.is_def_mode(env.is_def_mode), ctx, constr)?;
             Ok(env.clone())
         }
         Node::ExpressionType { expr, mutable, ty } => {
